@@ -75,7 +75,75 @@ func putUint(fn *ssa.Function, a *ssa.Alloc) (val ssa.Value, bits int, little bo
 			bits = 64
 		}
 	})
+	if bits == 0 {
+		val, bits, little = manualPut(a)
+	}
 	return
+}
+
+// manualPut: the array a is filled element by element with  a[k] = byte(v >> 8k)  (little endian) or  byte(v >> 8(n-1-k))
+// (big endian) for one value v and every k — what binary.ByteOrder.PutUintN does, written out (e.g. []byte{byte(v), byte(v >> 8)}).
+func manualPut(a *ssa.Alloc) (val ssa.Value, bits int, little bool) {
+	arr, ok := a.Type().(*types.Pointer).Elem().Underlying().(*types.Array)
+	if !ok || arr.Len() < 2 || arr.Len() > 8 {
+		return nil, 0, false
+	}
+	n := arr.Len()
+	shift := map[int64]int64{}
+	var v ssa.Value
+	for _, r := range *a.Referrers() {
+		ia, ok := r.(*ssa.IndexAddr)
+		if !ok {
+			continue
+		}
+		k, isK := core.ConstInt(ia.Index)
+		if !isK {
+			return nil, 0, false
+		}
+		for _, rr := range *ia.Referrers() {
+			st, ok := rr.(*ssa.Store)
+			if !ok || st.Addr != ssa.Value(ia) {
+				continue
+			}
+			x := core.StripConv(st.Val)
+			var base ssa.Value
+			var sh int64
+			if b, isB := x.(*ssa.BinOp); isB && b.Op == token.SHR {
+				c, isC := core.ConstInt(b.Y)
+				if !isC {
+					return nil, 0, false
+				}
+				base, sh = core.StripConv(b.X), c
+			} else {
+				base, sh = x, 0
+			}
+			if v == nil {
+				v = base
+			} else if v != base && !sameLoad(v, base) && !sameValue(v, base) {
+				return nil, 0, false
+			}
+			if _, dup := shift[k]; dup {
+				return nil, 0, false
+			}
+			shift[k] = sh
+		}
+	}
+	if int64(len(shift)) != n || v == nil {
+		return nil, 0, false
+	}
+	le, be := true, true
+	for k := int64(0); k < n; k++ {
+		if shift[k] != 8*k {
+			le = false
+		}
+		if shift[k] != 8*(n-1-k) {
+			be = false
+		}
+	}
+	if !le && !be {
+		return nil, 0, false
+	}
+	return v, int(8 * n), le
 }
 
 // isStreamRead: binary.Read(r, order, &x) / io.ReadFull(r, buf) / io.ReadAtLeast on reader value r.
@@ -347,4 +415,11 @@ func countUsedOnAllPaths(c *ssa.Call) (bool, string) {
 		return true, ""
 	}
 	return walk(c.Block(), start+1)
+}
+
+// sameLoad: two loads of one address (go/ssa does not merge them).
+func sameLoad(a, b ssa.Value) bool {
+	ua, ok1 := a.(*ssa.UnOp)
+	ub, ok2 := b.(*ssa.UnOp)
+	return ok1 && ok2 && ua.Op == token.MUL && ub.Op == token.MUL && ua.X == ub.X
 }
